@@ -46,7 +46,7 @@ def main():
             if not quiet or rep.status != "discharged":
                 print(line)
             if rep.status != "discharged":
-                print("    ", rep.detail[:1200])
+                print("    ", rep.detail[-700:])
                 for r in rep.refutations[:3]:
                     print("     REFUTED", r["oid"], r["assignment"], r["info"].get("real"), "| spec", r["info"].get("spec"))
                 for o in rep.obligations:
